@@ -42,6 +42,16 @@ class P:
     def prop(self):
         v = self.k * 10
         return v
+    @property
+    @deco
+    def dprop(self):
+        v = self.k * 100
+        return v
+    @deco
+    @deco
+    def wrapped2(self, x):
+        v = x - 2 * self.k
+        return v
 
 class E(P):
     """value equality, hashable"""
@@ -260,6 +270,20 @@ def run(chk):
     chk.count(("prop",))
     if list(evs) != [{"v": 30}] or a != 30:
         chk.violation("oracle", "P.prop > v through a property gave %r" % list(evs), {"selector": "P.prop > v"})
+    # … combined: a property over a decorated getter, a doubly decorated method, the same through one object
+    for sel, call, want, ret in (("P.dprop > v", lambda: mod.P(3).dprop, [{"v": 300}], 300),
+                                 ("P.wrapped2 > v", lambda: mod.P(3).wrapped2(10), [{"v": 4}], 4)):
+        try:
+            with ptera.probing(sel, env=mod.__dict__).values() as evs:
+                a = call()
+            got = list(evs)
+        except Exception as e:
+            got, a = "%s: %s" % (type(e).__name__, e), None
+        chk.count(("dig", sel), nontrivial=True)
+        chk.dist("access path: decorator chain")
+        if got != want or a != ret:
+            chk.violation("oracle", "%s (decorators / property around the function) gave %r and returned %r, "
+                          "expected %r and %r" % (sel, got, a, want, ret), {"selector": sel})
     chk.cov["correspondence"]["populations"] = stats
     pyprog.drop_module(mod)
 
